@@ -126,3 +126,15 @@ Definition chk_sync_stream (c : plan * (list nat * list nat * ostatus * list nat
     list_eqb (rev (started_ids st)) begins && status_matches o (loop_head p st)
     && (match o with OOk => set_eqb (yielded st) yields && Nat.eqb (length (yielded st)) (length yields) | _ => subset yields (yielded st) end)
   end.
+
+(* MULTIPROCESSING serialises the steps of one object in one worker process: only conflicts ACROSS objects remain
+   (one step reads an object that an unordered step writes) *)
+Definition conflicting_x (f : foot) (a b : nat) : bool :=
+  match foot_of f a, foot_of f b with
+  | Some (wa, ra), Some (wb, rb) => negb (Nat.eqb wa wb) && (mem wa rb || mem wb ra)
+  | _, _ => false
+  end.
+Definition conflict_free_x (p : plan) (f : foot) : bool :=
+  forallb (fun a => forallb (fun b =>
+     negb (Nat.ltb (sid a) (sid b) && negb (mem (sid a) (waits_for p b)) && negb (mem (sid b) (waits_for p a))
+           && conflicting_x f (sid a) (sid b))) p) p.
